@@ -37,7 +37,15 @@ fn pool() -> Vec<(&'static str, Value)> {
             Value::Object(o)
         })
         .collect();
+    let mut o64 = Object::new();
+    for k in 0..64 {
+        o64.insert(format!("k{:02}", k).into(), Value::scalar(k as i64));
+    }
     vec![
+        // sizes and byte positions at powers of two: exactly 64 entries; a multi-byte character across byte 128
+        ("obj64", Value::Object(o64)),
+        ("arr65", Value::Array((0..65i64).map(Value::scalar).collect())),
+        ("long128", Value::scalar(format!("{}\u{e9}\u{65e5}\u{672c}\u{8a9e}{}", "a".repeat(127), "\u{e9}".repeat(18)))),
         ("arrobj", Value::Array(arrobj)),
         ("arr40n", Value::Array(mixed_num)),
         ("ampuni", Value::scalar("\u{6771}\u{4eac} & \u{65e5}\u{672c}\u{8a9e} &lt\u{e9} &amp;\u{65e5} &#39\u{e9}\u{1f600}&quot")),
@@ -176,5 +184,49 @@ pub fn run(ctx: &mut Ctx) {
         let parser = build_parser(&partials, Policy::Eager);
         let obs = render_text(&parser, &src_tmpl(&t), &data);
         ctx.emit(render_case("c02", if oracle_only { "oracle-tpl" } else { "tpl" }, &t, &data, &partials, &obs));
+    }
+    // ---- (c) error paths over wide / long data: an error message may quote the offending value or
+    // list the available keys; building it must not fail either ----
+    {
+        let titles: Vec<String> = vec![
+            format!("{}\u{e9}\u{65e5}\u{672c}{}", "a".repeat(127), "\u{e9}".repeat(18)),
+            "\u{65e5}\u{672c}\u{8a9e}\u{306e}\u{3068}\u{3066}\u{3082}\u{9577}\u{3044}\u{984c}\u{540d}".repeat(6),
+            "a".repeat(300),
+            "\u{e9}".repeat(150),
+            format!("{}\u{1f600}", "b".repeat(253)),
+        ];
+        let parser = build_parser(&[], Policy::Eager);
+        for n in [1usize, 63, 64, 65, 128] {
+            let mut w = Object::new();
+            for k in 0..n {
+                w.insert(format!("k{:03}", k).into(), Value::scalar(k as i64));
+            }
+            for title in &titles {
+                let mut data = Object::new();
+                data.insert("w".into(), Value::Object(w.clone()));
+                data.insert("title".into(), Value::scalar(title.clone()));
+                let each = |body: Vec<Node>| Node::For { x: "x".into(), rng: RangeE::Arr(path("w", &["missing"])), limit: None, offset: None, rev: false, body, els: None };
+                let templates: Vec<Vec<Node>> = vec![
+                    vec![text("a"), out(path("w", &["missing"]))],
+                    vec![out(Expr::Var("w".into(), vec![var("title")]))],
+                    vec![each(vec![text("x")])],
+                    vec![Node::Assign("y".into(), path("w", &["missing", "deeper"]), vec![])],
+                    vec![Node::Cond { c: Cond::Exist(path("w", &["missing"])), mode: true, thn: vec![text("y")], els: Some(vec![text("n")]), elsif: false }],
+                    vec![Node::Case { target: var("title"), arms: vec![(vec![lit_s("x")], vec![text("a")])], els: Some(vec![text("b"), out(var("nope"))]), comma: true }],
+                    vec![Node::Case { target: var("title"), arms: vec![(vec![var("title")], vec![out(path("title", &["nope"]))])], els: None, comma: true }],
+                    vec![Node::Include(var("title"), vec![])],
+                    vec![Node::Render(var("title"), RForm::Plain, vec![])],
+                    vec![Node::For { x: "i".into(), rng: RangeE::Counted(lit_i(1), var("title")), limit: None, offset: None, rev: false, body: vec![text("x")], els: None }],
+                    vec![Node::Output(lit_i(1), vec![FCall { name: "plus".into(), args: vec![var("title")] }])],
+                    vec![Node::Output(var("title"), vec![FCall { name: "divided_by".into(), args: vec![lit_i(0)] }])],
+                    vec![Node::Cycle { name: None, vals: vec![var("title"), lit_s("b")] }, Node::Cycle { name: None, vals: vec![var("title"), lit_s("b")] }],
+                    vec![Node::For { x: "i".into(), rng: RangeE::Arr(var("w")), limit: Some(var("title")), offset: None, rev: false, body: vec![text("x")], els: None }],
+                ];
+                for t in templates {
+                    let obs = render_text(&parser, &src_tmpl(&t), &data);
+                    ctx.emit(render_case("c02", "errpath", &t, &data, &[], &obs));
+                }
+            }
+        }
     }
 }
